@@ -43,7 +43,7 @@ const (
 // fault kinds, in the order of the case index
 // "wrlost" is the half-dead connection: exactly the k-th Write fails, reads
 // keep working and the peer keeps answering as if everything had arrived.
-var kinds = []string{"eof", "wrbreak", "rdfail", "wrfail", "cancel-silent", "cancel-live", "cancel-blocked", "wrlost", "cancel-nodl", "precancel", "rdtimeout", "wrtimeout"}
+var kinds = []string{"eof", "wrbreak", "rdfail", "wrfail", "cancel-silent", "cancel-live", "cancel-blocked", "wrlost", "cancel-nodl", "precancel", "rdtimeout", "wrtimeout", "rddataerr"}
 
 // "cancel-nodl": the handshake runs on a transport without deadline methods
 // (the library cannot interrupt anything), the scripted peer answers on demand
@@ -57,7 +57,13 @@ var kinds = []string{"eof", "wrbreak", "rdfail", "wrfail", "cancel-silent", "can
 // connection, a transport-level timeout.
 var errTimeout = &net.OpError{Op: "io", Net: "bufconn", Err: os.ErrDeadlineExceeded}
 
+// (rddataerr: a read that returns its bytes together with a one-time error, on
+// a transport that is a plain io.ReadWriter, which the session wraps itself)
 func noDeadlineKind(kind string) bool { return kind == "cancel-nodl" || kind == "precancel" }
+
+// plainRWKind: the library is given a plain io.ReadWriter (no deadlines), which
+// the session wraps in its own net.Conn.
+func plainRWKind(kind string) bool { return noDeadlineKind(kind) || kind == "rddataerr" }
 
 func byteKind(kind string) bool { return kind == "eof" || kind == "wrbreak" }
 
@@ -256,7 +262,7 @@ func (r *run) construct(done chan struct{}) {
 		}
 	}()
 	var rw io.ReadWriter = r.lib
-	if noDeadlineKind(r.f.Kind) && !r.h.TLS {
+	if plainRWKind(r.f.Kind) && !r.h.TLS {
 		rw = bufconn.NoDeadline{C: r.lib}
 	}
 	r.sess, r.err = r.a.call(r.ctx, rw, r.log)
@@ -312,6 +318,11 @@ func (r *run) execute() {
 		fp.WriteBreakAfter = r.f.K
 	case "rdfail":
 		fp.FailRead = r.f.K + 1
+	case "rddataerr":
+		// (the kind is only defined inside its extent: see extent)
+		if r.f.K < extent(goldenOf(r.h), "rddataerr") {
+			fp.ReadDataErr = r.f.K + 1
+		}
 	case "rdtimeout":
 		fp.FailRead = r.f.K + 1
 		fp.Err = errTimeout
@@ -531,6 +542,20 @@ func extent(g *golden, kind string) int {
 		return g.W
 	case "rdfail":
 		return g.NR
+	case "rddataerr":
+		// Only handshakes on one stream.  Where a feature restarts the stream the
+		// session starts a new decoder, and an error that came with the last
+		// bytes of the old stream sits, unread, in the buffered reader of the old
+		// one: the reader that was told never got to act on it (observed on the
+		// unchanged tree, DESIGN 9.3; not a failure to look at an error).
+		// And not the last read: the bytes it delivers may complete the handshake
+		// without the transport being asked again.
+		for _, st := range g.Steps {
+			if st.Restart {
+				return 0
+			}
+		}
+		return g.NR - 1
 	case "rdtimeout":
 		return g.NR
 	case "wrfail", "wrlost", "wrtimeout":
